@@ -133,6 +133,8 @@ impl Property for C05 {
                     2 => a.push(AStep::Nested(vec![b("MULTI")])),
                     3 => a.push(AStep::Nested(vec![b("WATCH"), g.key(src)])),
                     4 if src.chance(1, 3) => a.push(AStep::Body(vec![b("UNWATCH")])), // queued like any other command
+                    // commands without a key are queued like any other (a shortcut that answers them at once skips the queue)
+                    5 if src.chance(1, 2) => a.push(AStep::Body(match src.below(4) { 0 => vec![b("PING")], 1 => vec![b("PING"), b("hello")], 2 => vec![b("ECHO"), b("x")], _ => vec![b("DBSIZE")] })),
                     _ => a.push(AStep::Body(gen1(src, &mut g))),
                 }
             }
